@@ -78,3 +78,13 @@ register("C13", "exploration",
          "oracle = integer arithmetic + vlib.oracle.simulate; scope in evidence.bound",
          hashseeds={"quick": 2, "thorough": 4},
          explanation="bounded stand-in of the C13 contracts")
+
+register("C10", "exploration",
+         "Bounded: ternary(c) is simulated under every 0/1/X input pattern and both binary fillings of each X; mapping[n]==1 iff Kleene evaluation gives X, else n carries the Kleene value; c is contained unchanged; result lint-clean with exactly the inputs and their companions free.",
+         "oracle = Kleene evaluator in vlib.oracle; scope in evidence.bound",
+         explanation="bounded stand-in of the ternary contract")
+
+register("C09", "exploration",
+         "Bounded: unroll/sequential_unroll are simulated for every initial state and input sequence and compared, io by io and step by step, with iterated execution of the original circuit (cycle-accurate for flop blackboxes); free inputs and outputs of the unrolled circuit must be exactly those the property names.",
+         "oracle = iterated vlib.oracle.simulate; scope in evidence.bound",
+         explanation="bounded stand-in of the unroll contracts")
